@@ -316,6 +316,13 @@ def add_udiv_to_fin():
     fin._udiv = True
 
 
+def _reseed_is_a_call(f):
+    """the rules know the automatic reseed as a call of tinyjambu_prng_reseed; an entropy request made by generate itself (the reseed body
+    in a file-local helper, inlined) is a reseed they do not see: no verdict rather than 'an emission without reseeding'"""
+    if not f.calls("tinyjambu_prng_reseed") and any(c.callee is None and not c.is_dbg() for c in f.calls()):
+        raise Broken("%s makes an entropy request itself instead of calling tinyjambu_prng_reseed (the reseed in a file-local helper?): the reseed sites are not recognised" % f.name)
+
+
 def guard_rule(ck, mod, offs, incs, label):
     c_off, l_off = offs
     f = mod.fn("tinyjambu_prng_generate")
@@ -354,6 +361,7 @@ def guard_rule(ck, mod, offs, incs, label):
         raise Broken("no emission site (write to 'data') found in tinyjambu_prng_generate")
     inc_st = incs.get(f.name, [])
     reseeds = f.calls("tinyjambu_prng_reseed")
+    _reseed_is_a_call(f)
     n = 0
     for (E, ln) in emis:
         n += 1
